@@ -42,6 +42,7 @@ pub fn run(args: &Args) {
             // longer than 255 UTF-16 units (the hash algorithm has no length limit)
             7 => format!("{}{}", "long-é".repeat(rng.range(43, 60) as usize), k),
             8 => "😀".repeat(rng.range(126, 140) as usize),
+            9 if k % 2 == 0 => "漢".repeat(*rng.pick(&[341usize, 342, 400, 700])),
             9 => "x".repeat(*rng.pick(&[254usize, 255, 256, 257, 511, 512, 1000])),
             1 => format!("{}-{}", "L".repeat(240), k),
             2 => format!("pw-{}-é😀𠀋", k),
